@@ -2,6 +2,13 @@
 //! Input case: {"ty": "gds"|"lef", "val": <serde data-model JSON; doubles written as {"$f64": bits}>}
 //! Output: the value as serde sees it (doubles again as {"$f64": bits}) and, for JSON and YAML, whether the
 //! library's own helpers (to_string/from_str, save/open) return an equal and bit-identical value.
+//! Layer 2 (JSON text, coq/Serde/JsonText.v):
+//!   {"ty":"jsontext","val":<any JSON, doubles as {"$f64": bits}>,"wrap":n} -> the pretty text of the value (wrapped in n
+//!     more containers), whether every reader returns the same value from it, and the token of every double in it;
+//!   {"ty":"jsonparse","hex":<bytes of a text>} -> what from_slice / from_reader / from_str make of the text, through a
+//!     visitor that keeps object entries in order (seq = array, map = {"m":[[k,v]..]}, double = {"f":bits});
+//!   {"ty":"dedent","hex":<bytes of a text>} -> textwrap::dedent as applied by SerializationFormat::from_str, observed
+//!     through a TOML multi-line literal string.
 use l21h::{json, Value};
 use layout21utils::SerializationFormat;
 use serde::{de::DeserializeOwned, Serialize};
@@ -72,6 +79,129 @@ fn run_ty<T: Serialize + DeserializeOwned + PartialEq>(val: &Value, want_text: b
     Ok((v, json!({"ser": seen, "json": j, "yaml": y})))
 }
 
+/// A self-describing tree that keeps the entries of an object in the order (and multiplicity) read.
+struct Tree(Value);
+impl<'de> serde::Deserialize<'de> for Tree {
+    fn deserialize<D: serde::Deserializer<'de>>(d: D) -> Result<Self, D::Error> {
+        struct V;
+        impl<'de> serde::de::Visitor<'de> for V {
+            type Value = Tree;
+            fn expecting(&self, f: &mut std::fmt::Formatter) -> std::fmt::Result {
+                f.write_str("any JSON value")
+            }
+            fn visit_unit<E>(self) -> Result<Tree, E> {
+                Ok(Tree(Value::Null))
+            }
+            fn visit_bool<E>(self, b: bool) -> Result<Tree, E> {
+                Ok(Tree(Value::Bool(b)))
+            }
+            fn visit_i64<E>(self, x: i64) -> Result<Tree, E> {
+                Ok(Tree(json!(x)))
+            }
+            fn visit_u64<E>(self, x: u64) -> Result<Tree, E> {
+                Ok(Tree(json!(x)))
+            }
+            fn visit_f64<E>(self, x: f64) -> Result<Tree, E> {
+                Ok(Tree(json!({ "f": x.to_bits() })))
+            }
+            fn visit_str<E>(self, s: &str) -> Result<Tree, E> {
+                Ok(Tree(Value::String(s.to_string())))
+            }
+            fn visit_seq<A: serde::de::SeqAccess<'de>>(self, mut a: A) -> Result<Tree, A::Error> {
+                let mut v = Vec::new();
+                while let Some(Tree(x)) = a.next_element()? {
+                    v.push(x);
+                }
+                Ok(Tree(Value::Array(v)))
+            }
+            fn visit_map<A: serde::de::MapAccess<'de>>(self, mut a: A) -> Result<Tree, A::Error> {
+                let mut v = Vec::new();
+                while let Some(k) = a.next_key::<String>()? {
+                    let Tree(x) = a.next_value()?;
+                    v.push(json!([k, x]));
+                }
+                Ok(Tree(json!({ "m": v })))
+            }
+        }
+        d.deserialize_any(V)
+    }
+}
+fn enc_tree(r: serde_json::Result<Tree>) -> Value {
+    match r {
+        Ok(Tree(v)) => json!({ "ok": v }),
+        Err(e) => json!({ "err": e.to_string() }),
+    }
+}
+fn unhex(s: &str) -> Vec<u8> {
+    (0..s.len() / 2).map(|i| u8::from_str_radix(&s[2 * i..2 * i + 2], 16).expect("hex")).collect()
+}
+fn float_tokens(v: &Value, out: &mut Vec<Value>) {
+    match v {
+        Value::Number(n) if n.is_f64() => {
+            out.push(json!([n.as_f64().unwrap().to_bits(), serde_json::to_string(v).unwrap()]));
+        }
+        Value::Object(m) => m.values().for_each(|x| float_tokens(x, out)),
+        Value::Array(a) => a.iter().for_each(|x| float_tokens(x, out)),
+        _ => {}
+    }
+}
+fn jsontext(case: &Value) -> Value {
+    let mut v = decode_floats(&case["val"]);
+    for i in 0..case["wrap"].as_u64().unwrap_or(0) {
+        v = if i % 2 == 0 { Value::Array(vec![v]) } else { json!({ "k": v }) };
+    }
+    let text = serde_json::to_string_pretty(&v).unwrap();
+    let orig = encode_floats(&v);
+    let mut errs: Vec<String> = Vec::new();
+    let mut same = |what: &str, r: Result<Value, String>| -> bool {
+        match r {
+            Ok(back) => {
+                let eq = encode_floats(&back) == orig;
+                if !eq {
+                    errs.push(format!("{}: different value", what));
+                }
+                eq
+            }
+            Err(e) => {
+                errs.push(format!("{}: {}", what, e));
+                false
+            }
+        }
+    };
+    let str_ok = same("from_str", serde_json::from_str::<Value>(&text).map_err(|e| e.to_string()));
+    let reader_ok = same("from_reader", serde_json::from_reader::<_, Value>(text.as_bytes()).map_err(|e| e.to_string()));
+    let slice_ok = same("from_slice", serde_json::from_slice::<Value>(text.as_bytes()).map_err(|e| e.to_string()));
+    let utils_ok = same("utils from_str", SerializationFormat::Json.from_str::<Value>(&text).map_err(|e| e.to_string()));
+    let utils_text_same = SerializationFormat::Json.to_string(&v).map(|t| t == text).unwrap_or(false);
+    let mut toks = Vec::new();
+    float_tokens(&v, &mut toks);
+    json!({"text": text, "reparsed_equal": str_ok && reader_ok && slice_ok && utils_ok, "utils_text_same": utils_text_same,
+           "float_tokens": toks, "errs": errs})
+}
+fn jsonparse(case: &Value) -> Value {
+    let bytes = unhex(case["hex"].as_str().expect("hex"));
+    let slice = enc_tree(serde_json::from_slice::<Tree>(&bytes));
+    let reader = enc_tree(serde_json::from_reader::<_, Tree>(&bytes[..]));
+    let st = match std::str::from_utf8(&bytes) {
+        Ok(s) => enc_tree(serde_json::from_str::<Tree>(s)),
+        Err(_) => Value::Null,
+    };
+    json!({"slice": slice, "reader": reader, "str": st})
+}
+/// `  x = '''<LF><text><LF>  '''` is TOML for the one-entry table x -> <text>; SerializationFormat::from_str dedents the
+/// whole document first, so the string that comes back is the dedented text (for texts that TOML accepts verbatim).
+fn dedent_probe(case: &Value) -> Value {
+    let bytes = unhex(case["hex"].as_str().expect("hex"));
+    let text = match String::from_utf8(bytes) {
+        Ok(s) => s,
+        Err(_) => return json!({"harness_error": "dedent text is not UTF-8"}),
+    };
+    match SerializationFormat::Toml.from_str::<std::collections::BTreeMap<String, String>>(&text) {
+        Ok(m) => json!({ "ok": m }),
+        Err(e) => json!({ "err": e.to_string() }),
+    }
+}
+
 fn run(case: &Value) -> Value {
     let want_text = case["want_text"].as_bool().unwrap_or(false);
     match case["ty"].as_str().unwrap_or("") {
@@ -110,6 +240,9 @@ fn run(case: &Value) -> Value {
             let y = trip(&lib, SerializationFormat::Yaml, "yaml", true);
             json!({"json": j, "yaml": y})
         }
+        "jsontext" => jsontext(case),
+        "jsonparse" => jsonparse(case),
+        "dedent" => dedent_probe(case),
         _ => json!({"harness_error": "bad ty"}),
     }
 }
